@@ -4,6 +4,8 @@ MPI = "src/pyunicorn/utils/mpi.py"
 CPYX = "src/pyunicorn/core/_ext/numerics.pyx"
 RN = "src/pyunicorn/core/resistive_network.py"
 CN = "src/pyunicorn/climate/climate_network.py"
+DT = "src/pyunicorn/core/data.py"
+CD = "src/pyunicorn/climate/climate_data.py"
 
 MUTANTS = [
  {"name": "c19_newman_last_chunk_short", "property": "C19", "edits": [
@@ -82,4 +84,23 @@ MUTANTS = [
    (CN, "int((1-link_density) * (len(flat_corr)-self.N))", "int((1-link_density) * len(flat_corr))")]},
  {"name": "c09_non_local_compares_identity", "property": "C09", "edits": [
    (CN, "if self.non_local() != non_local:", "if self.non_local() is not non_local and non_local:")]},
+ {"name": "c13_time_max_open", "property": "C13", "edits": [
+   (DT, '(full_time <= window["time_max"])', '(full_time < window["time_max"])')]},
+ {"name": "c13_window_counter_not_bumped", "property": "C13", "edits": [
+   (CD, """        Data.set_window(self, window)
+        # invalidate cache
+        self._mut_window += 1""", """        Data.set_window(self, window)""")]},
+ {"name": "c13_phase_mean_stride", "property": "C13", "edits": [
+   (CD, "phase_mean[i, :] = observable[i::time_cycle, :].mean(axis=0)",
+        "phase_mean[i, :] = observable[i::time_cycle+1, :].mean(axis=0)")]},
+ {"name": "c13_lon_min_open", "property": "C13", "edits": [
+   (DT, '(full_lon_seq >= window["lon_min"])', '(full_lon_seq > window["lon_min"])')]},
+ {"name": "c13_global_keeps_observable", "property": "C13", "edits": [
+   (DT, """        self._observable = \\
+            self._full_observable[time_indices, :][:, space_indices]""",
+        """        if not time_indices.all() or not space_indices.all():
+            self._observable = \\
+                self._full_observable[time_indices, :][:, space_indices]""")]},
+ {"name": "c13_anomaly_in_place_on_view", "property": "C13", "edits": [
+   (CD, "        anomaly = np.zeros(observable.shape)\n", "        anomaly = observable\n")]},
 ]
